@@ -246,7 +246,15 @@ func c17CertQuery(c *Ctx, cl c17CertCell, i int, rep string, listen string) {
 }
 
 func c17ClientCerts(c *Ctx) {
-	b, err := NewBed(c, "mtls", BedOpts{Upstreams: []string{"pipe"}, Listeners: []string{"tls", "https", "quic", "tcp"}, VerifyClientCert: true})
+	// "other-ca" is the one CA in the proxy's system trust store: a client certificate it signed is
+	// publicly trusted but does not chain to the configured ca
+	ca2, _ := pki.NewCA("other-ca")
+	ca2Path := filepath.Join(c.Work, "mtls-system-roots.pem")
+	ca2.WriteFile(ca2Path)
+	emptyDir := filepath.Join(c.Work, "mtls-no-certs")
+	os.MkdirAll(emptyDir, 0755)
+	b, err := NewBed(c, "mtls", BedOpts{Upstreams: []string{"pipe"}, Listeners: []string{"tls", "https", "quic", "tcp"}, VerifyClientCert: true,
+		Env: map[string]string{"SSL_CERT_FILE": ca2Path, "SSL_CERT_DIR": emptyDir}})
 	if err != nil {
 		c.startFailure(err, "c17-mtls")
 		return
@@ -258,7 +266,6 @@ func c17ClientCerts(c *Ctx) {
 			c.Violation("proxy-died", "the proxy died in the client certificate matrix: "+res.Panic, map[string]any{"panic": res.Panic})
 		}
 	}()
-	ca2, _ := pki.NewCA("other-ca")
 	mk := func(kind string) *tls.Config {
 		cfg := b.ProxyTLS.Clone()
 		var l *pki.Leaf
